@@ -244,16 +244,24 @@ def notes_of(trace, loops=None):
 
 
 # --------------------------------------------------------------------- DFA over trace trees
-def dfa_run(trace, loops, states, step):
+REJECT = "#reject"
+
+
+def dfa_run(trace, loops, states, step, facts=None, total=False):
     """propagate a set of DFA states through a trace tree.
-    step(state, Sym) -> iterable of successor states (empty = reject, recorded by caller).
-    Loops: least fixpoint over the recorded continue-paths of the loop."""
+    step(state, Sym) -> iterable of successor states (empty = reject).
+    Loops: least fixpoint over the recorded continue-paths of the loop.
+    total=True: a rejected path is not dropped but ends in the absorbing state REJECT, so that the caller can demand
+    that EVERY path is accepted (the set semantics alone answers "is SOME path accepted"). facts: alternatives of a
+    merged trace whose condition is false under these facts (paths this outcome did not take) are skipped."""
     cur = set(states)
     for it in trace:
         if isinstance(it, E.Alt):
             nxt = set()
-            for _, sub in it.alts:
-                nxt |= dfa_run(sub, loops, cur, step)
+            for c_, sub in it.alts:
+                if facts is not None and facts.simplify(c_).const_value() == 0:
+                    continue
+                nxt |= dfa_run(sub, loops, cur, step, facts, total)
             cur = nxt
         elif isinstance(it, E.LoopMark):
             body = loops.get(it.loop_id, {"cont": []})["cont"]
@@ -262,7 +270,7 @@ def dfa_run(trace, loops, states, step):
             while work:
                 new = set()
                 for c in body:
-                    new |= dfa_run(c["trace"], loops, work, step)
+                    new |= dfa_run(c["trace"], loops, work, step, None, total)
                 work = new - seen
                 seen |= new
             cur = seen
@@ -272,7 +280,13 @@ def dfa_run(trace, loops, states, step):
                 continue
             nxt = set()
             for q in cur:
-                nxt |= set(step(q, s))
+                if q == REJECT:
+                    nxt.add(REJECT)
+                    continue
+                r = set(step(q, s))
+                if not r and total:
+                    r = {REJECT}
+                nxt |= r
             cur = nxt
     return cur
 
